@@ -527,9 +527,15 @@ func genCase(withHoles bool) func(t *rapid.T) Case {
 			h := fmt.Sprintf("h%d", g.nholes+1)
 			g.nholes++
 			c.Data[h] = vals.Str(rapid.SampledFrom([]string{"<b>bold</b> &amp; <i>it</i>", "<ul><li>1</li><li>2 &lt; 3</li></ul>", "plain text", "<p>a</p><p>b</p>", `<a href="/x?a=1&amp;b=2">l</a>`,
-				"Fish &amp; Chips &copy; 2024", "a &lt; b &amp;&amp; c", "x > y", "it's &quot;quoted&quot;", "&#169; &nbsp; done"}).Draw(t, "vhv"))
+				"Fish &amp; Chips &copy; 2024", "a &lt; b &amp;&amp; c", "x > y", "it's &quot;quoted&quot;", "&#169; &nbsp; done",
+				// values of several lines (markup rendered elsewhere: a page handed to its layout,
+				// markdown output): every line, and the inside of <pre> / <textarea>, stays as it is
+				"<p>one</p>\n<p>two</p>", "<h1>t</h1>\n\n<p>a\nb</p>\n<ul>\n  <li>1</li>\n  <li>2</li>\n</ul>", "<pre>line 1\nline 2\n  indented</pre>",
+				"<div>\n<pre><code>a\n\tb\n\nc</code></pre>\n</div>", "<textarea>x\ny</textarea>\n<p>z</p>", "first line\nsecond line", "<p>a</p>\r\n<p>b</p>"}).Draw(t, "vhv"))
 			c.VHtml = append(c.VHtml, h)
-			body += `<div v-html="` + h + `"></div>`
+			// at the top level or nested in other elements (written at a deeper indentation)
+			w := rapid.SampledFrom([][2]string{{"", ""}, {"", ""}, {"<section><div>", "</div></section>"}, {"<main><article><section>", "<p>after</p></section></article></main>"}, {"<ul><li>", "</li></ul>"}, {"<table><tbody><tr><td>", "</td></tr></tbody></table>"}}).Draw(t, "vhwrap")
+			body += w[0] + `<div v-html="` + h + `"></div>` + w[1]
 		}
 		if c.Doc {
 			dt := rapid.SampledFrom([]string{"<!DOCTYPE html>", "<!doctype html>", "", "<!DOCTYPE html>\n",
